@@ -72,7 +72,7 @@ def cases(ctx):
         for s in (sigs if not ctx.quick else [None, "ECDSAwithSHA384", "RSAwithSHA1"]):
             out.append(mk(len(out) + 1, [ent("root", None, k, s)], {"root": "root.json"}, {"root": "CN=Root, OU=%s" % (k or "default")}, "root"))
     # (b) deep / wide forests with distinct DNs (catches "issuer of issuer"), aliases explicit / implicit / nested, with and without profile
-    for i in range(12 if ctx.quick else 200):
+    for i in range(12 if ctx.quick else 3000):
         n = r.randrange(3, 7)
         ents, paths, dns = [], {}, {}
         for j in range(n):
